@@ -21,6 +21,8 @@ void begin_tracking();
 // stop tracking new allocations; blocks stay known until the next begin_tracking()
 void end_tracking();
 bool tracking();
+// scan the quarantined node/value blocks for bytes that are no longer poison (write after free); end_tracking() does it too
+void verify_quarantine();
 // block that contains p (live or quarantined)
 Info lookup(const void* p);
 // number / list of live blocks allocated with an alignment argument (nodes and values) since begin_tracking()
